@@ -406,7 +406,29 @@ fn take_sweeps() -> Value {
 
 /// The observables of a finished Cfg as canonical strings, one per group, so
 /// that the trace specification can say *which* group a pass changed.
-fn parts(cfg: &Cfg, ff: &dyn Fn(Uuid) -> i64) -> Value {
+/// With `digest`, every group is replaced by "<length>:<64-bit SipHash, fixed
+/// key>" of its canonical string: the trace specification only compares the
+/// groups for equality, and full text for every step of every history is
+/// gigabytes.  A replay asks for the full text.
+fn parts_opt(cfg: &Cfg, ff: &dyn Fn(Uuid) -> i64, digest: bool) -> Value {
+    let mut v = parts_full(cfg, ff);
+    if digest {
+        use std::hash::{Hash, Hasher};
+        if let Some(m) = v.as_object_mut() {
+            for (_, x) in m.iter_mut() {
+                if let Some(st) = x.as_str() {
+                    #[allow(deprecated)]
+                    let mut h = std::hash::SipHasher::new_with_keys(0x5256_415f, 0x7665_7269_66);
+                    st.hash(&mut h);
+                    *x = json!(format!("{}:{:016x}", st.len(), h.finish()));
+                }
+            }
+        }
+    }
+    v
+}
+
+fn parts_full(cfg: &Cfg, ff: &dyn Fn(Uuid) -> i64) -> Value {
     let j = cfg_json(cfg, ff);
     let nodes = j["nodes"].as_array().cloned().unwrap_or_default();
     let pick = |keys: &[&str]| -> String {
@@ -457,6 +479,7 @@ fn stable(case: &Value) -> Value {
     let (nodes, errors) = parser.parse_from_file(&base, false);
     let ff = files_fn(&parser.reader);
     let mut runs = vec![];
+    let digest = case["digest"].as_bool().unwrap_or(false);
     for h in case["histories"].as_array().cloned().unwrap_or_default() {
         let hist: Vec<String> = h
             .as_array()
@@ -466,7 +489,7 @@ fn stable(case: &Value) -> Value {
         match Manager::gen_full_cfg(nodes.clone()) {
             Ok(mut cfg) => {
                 let sweeps0 = take_sweeps();
-                let first = parts(&cfg, &ff);
+                let first = parts_opt(&cfg, &ff, digest);
                 let mut steps = vec![];
                 for p in &hist {
                     let r = match p.as_str() {
@@ -475,7 +498,7 @@ fn stable(case: &Value) -> Value {
                         "L" => LivenessPass::run(&mut cfg),
                         _ => Ok(()),
                     };
-                    steps.push(json!({"pass": p, "ok": r.is_ok(), "sweeps": take_sweeps(), "parts": parts(&cfg, &ff)}));
+                    steps.push(json!({"pass": p, "ok": r.is_ok(), "sweeps": take_sweeps(), "parts": parts_opt(&cfg, &ff, digest)}));
                 }
                 runs.push(json!({"hist": hist, "ok": true, "first": first, "sweeps": sweeps0, "steps": steps}));
             }
